@@ -106,7 +106,13 @@ def epoch_history(ctx, rng, n):
             elif op == 'set':
                 v = rng.uniform(0, 3.9e6); e.set(v); steps.append(['set', v])
             elif op == 'setymd':
-                v = [rng.randint(-4000, 5000), rng.randint(1, 12), rng.randint(1, 28) + rng.choice([0.0, 0.25])]
+                y_, m_ = rng.randint(-4000, 5000), rng.randint(1, 12)
+                leap_ = (y_ % 4 == 0) if y_ < 1583 else (y_ % 4 == 0 and (y_ % 100 != 0 or y_ % 400 == 0))
+                n_ = 29 if (m_ == 2 and leap_) else [31, 28, 31, 30, 31, 30, 31, 31, 30, 31, 30, 31][m_ - 1]
+                d_ = n_ if rng.random() < 0.34 else rng.randint(1, n_)      # month ends one time in three
+                if (y_, m_) == (1582, 10) and 5 <= d_ <= 14:
+                    d_ = 15
+                v = [y_, m_, d_ + rng.choice([0.0, 0.25])]
                 e.set(*v); steps.append(['set', v])
             else:
                 v = rng.uniform(-400, 400); e += v; steps.append(['iadd', v])
